@@ -70,6 +70,13 @@ theorem evalExpr_not (strip : String → String) (ext : Ext) (f : Nat) (env : En
        | .raise c => .raise c
        | .stuck w => .stuck w) := rfl
 
+theorem evalExpr_and (strip : String → String) (ext : Ext) (f : Nat) (env : Env) (a b : Expr) :
+    evalExpr strip ext (f + 1) env (.and a b) =
+      (match evalExpr strip ext f env a with
+       | .ok v => if truthy v then evalExpr strip ext f env b else .ok v
+       | .raise c => .raise c
+       | .stuck w => .stuck w) := rfl
+
 theorem evalStmt_try (strip : String → String) (ext : Ext) (f : Nat) (env : Env) (body : List Stmt)
     (handlers : List (String × List Stmt)) :
     evalStmt strip ext (f + 1) env (.try body handlers) =
